@@ -424,7 +424,7 @@ def c19_long_errors():
     units = ["é", "€", "水", "😀", "z"]
     i = 0
     for u in units:
-        for n in (40, 200, 343, 600, 3000):
+        for n in (40, 200, 343, 600, 3000, 22000, 40000):
             for shift in range(4):
                 i += 1
                 if i % nshards != shard:
